@@ -2,7 +2,7 @@
    The definitions they talk about (Gen_*.v) are regenerated from /repo's headers on every run. *)
 From Coq Require Import ZArith List.
 From MomoCommon Require Import GenPrelude.
-From C13 Require Gen_Open2N2 Gen_OpenN1 Gen_Open8 Open2N2_Proofs OpenN1_Proofs ProbeSeq.
+From C13 Require Gen_Open2N2 Gen_OpenN1 Gen_Open8 Open2N2_Proofs OpenN1_Proofs ProbeSeq OpenTable OpenInstances.
 Import ListNotations.
 Local Open Scope Z_scope.
 
@@ -56,3 +56,44 @@ Theorem C13_triangular_injective :
   forall n i j, 0 <= n -> 0 <= i -> i < j -> j < 2 ^ n -> (ProbeSeq.tri j - ProbeSeq.tri i) mod 2 ^ n <> 0.
 Proof. exact ProbeSeq.tri_inj. Qed.
 Print Assumptions C13_triangular_injective.
+
+(* Table level ("Hence ..." of the property).  OpenTable.v models HashSet::pvAddNogrow / pvFind for an
+   open-addressing table with 2^n buckets of capacity cap, ANY hash function h, the generated probe step
+   and the generated bound encoder.  For every history of insertions and removals from the empty table,
+   a key that is present in some bucket is found by the bounded probe loop. *)
+Theorem C13_open2n2_present_key_always_found :
+  forall n cap h ops b k,
+  0 <= n <= 63 -> (forall k, 0 <= h k < 2 ^ n) ->
+  let s := fold_left (OpenTable.step n Gen_Open2N2.GetNextBucketIndex cap h (Z -> Z) OpenInstances.upd2) ops
+                     {| OpenTable.bk := fun _ => []; OpenTable.bd := fun _ => (fun _ => 0) |} in
+  In k (OpenTable.bk _ s b) ->
+  OpenTable.find n Gen_Open2N2.GetNextBucketIndex h (Z -> Z) Gen_Open2N2.pvGetMaxProbe s k = true.
+Proof. exact OpenInstances.open2n2_present_key_found. Qed.
+Print Assumptions C13_open2n2_present_key_always_found.
+
+(* ... and an insertion reports "Hash table is full" only when no bucket of the table has room. *)
+Theorem C13_open2n2_insert_fails_only_if_all_buckets_full :
+  forall n cap h (s : OpenTable.table (Z -> Z)) k,
+  0 <= n <= 63 -> (forall k, 0 <= h k < 2 ^ n) ->
+  OpenTable.add n Gen_Open2N2.GetNextBucketIndex cap h (Z -> Z) OpenInstances.upd2 s k = None ->
+  forall b, 0 <= b < 2 ^ n -> (cap <= length (OpenTable.bk _ s b))%nat.
+Proof. exact OpenInstances.open2n2_full_only_if_all_full. Qed.
+Print Assumptions C13_open2n2_insert_fails_only_if_all_buckets_full.
+
+Theorem C13_open8_openn1_present_key_always_found :
+  forall mc n cap h ops b k,
+  0 <= n <= 63 -> (forall k, 0 <= h k < 2 ^ n) ->
+  let s := fold_left (OpenTable.step n Gen_Open8.GetNextBucketIndex cap h (Z -> Z) (OpenInstances.updN mc)) ops
+                     {| OpenTable.bk := fun _ => []; OpenTable.bd := fun _ => (fun _ => 0) |} in
+  In k (OpenTable.bk _ s b) ->
+  OpenTable.find n Gen_Open8.GetNextBucketIndex h (Z -> Z) (fun st => Gen_OpenN1.GetMaxProbe mc st n) s k = true.
+Proof. exact OpenInstances.open8_present_key_found. Qed.
+Print Assumptions C13_open8_openn1_present_key_always_found.
+
+Theorem C13_open8_openn1_insert_fails_only_if_all_buckets_full :
+  forall mc n cap h (s : OpenTable.table (Z -> Z)) k,
+  0 <= n <= 63 -> (forall k, 0 <= h k < 2 ^ n) ->
+  OpenTable.add n Gen_Open8.GetNextBucketIndex cap h (Z -> Z) (OpenInstances.updN mc) s k = None ->
+  forall b, 0 <= b < 2 ^ n -> (cap <= length (OpenTable.bk _ s b))%nat.
+Proof. exact OpenInstances.open8_full_only_if_all_full. Qed.
+Print Assumptions C13_open8_openn1_insert_fails_only_if_all_buckets_full.
